@@ -438,9 +438,15 @@ package bitcoin_reader
 // that finds isCancelled false sends, and it sets the flag inside the same critical section), so no send can block.
 
 //@ pure func bdOK(bd *BlockDownloader) bool = bd != nil && bd.Started != nil && bd.Complete != nil && !closed(bd.Started) && !closed(bd.Complete)
+// bdBudget: the machine-checked form of "no send can block". handled(bd) counts HandleBlock calls on the downloader
+// (ghost, incremented on entry). On each channel at most one value per HandleBlock call has been sent, plus one if
+// the downloader is cancelled; with at most one HandleBlock call (precondition of HandleBlock) that is at most 2,
+// the capacity. Every function that sends keeps the budget and ends with the send counters within the capacity.
+//@ pure func bdBudget(bd *BlockDownloader) bool = chancap(bd.Started) == 2 && chancap(bd.Complete) == 2 && ghostv("handled", bd) >= 0 && ghostv("handled", bd) <= 1 && sent(bd.Started) <= ghostv("handled", bd) + ite(bd.isCancelled, 1, 0) && sent(bd.Complete) <= ghostv("handled", bd) + ite(bd.isCancelled, 1, 0)
 
 //@ func NewBlockDownloader
 //@   ensures [C16.capacity] bdOK(result) && fresh(result) && chancap(result.Started) == 2 && chancap(result.Complete) == 2 && sent(result.Started) == 0 && sent(result.Complete) == 0
+//@   ensures [C16.budget] ghostv("handled", result) == 0 ==> bdBudget(result)
 //@   ensures [C16.initial-flags] !result.isCancelled && !result.isStarted && !result.isComplete && result.hash == hash && result.txProcessor == txProcessor && result.blockTxManager == blockTxManager
 //@   modifies nothing
 
@@ -459,6 +465,7 @@ package bitcoin_reader
 //@   ensures [C16.stop-signals-once] sent(bd.Started) == old(sent(bd.Started)) + ite(old(!bd.isComplete && !bd.isCancelled && !bd.isStarted), 1, 0) && sent(bd.Complete) == old(sent(bd.Complete)) + ite(old(!bd.isComplete && !bd.isCancelled && !bd.isStarted), 1, 0)
 //@   ensures [C16.stop-result-cancelled] old(!bd.isComplete && !bd.isCancelled && !bd.isStarted) ==> chanlog(bd.Complete, old(sent(bd.Complete))) == errBlockDownloadCancelled
 //@   ensures [C16.stop-marks-cancelled] (old(!bd.isComplete) ==> bd.isCancelled) && bdOK(bd)
+//@   ensures [C16.budget] old(bdBudget(bd)) ==> bdBudget(bd) && sent(bd.Started) <= chancap(bd.Started) && sent(bd.Complete) <= chancap(bd.Complete)
 //@   ensures [C16.flags-monotone] (old(bd.isCancelled) ==> bd.isCancelled) && bd.isComplete == old(bd.isComplete) && bd.isStarted == old(bd.isStarted)
 //@   modifies bd.isCancelled, bd.stateLock, bd.Mutex, chanof(bd.Started), chanof(bd.Complete)
 //@   safety [C16]
@@ -469,6 +476,7 @@ package bitcoin_reader
 //@   ensures [C16.cancel-complete-once] sent(bd.Complete) == old(sent(bd.Complete)) + ite(old(!bd.isComplete && !bd.isCancelled && bd.canceller != nil) && ghostv("cancelFoundStarted", 0) == 0, 1, 0)
 //@   ensures [C16.cancel-result-cancelled] sent(bd.Complete) > old(sent(bd.Complete)) ==> chanlog(bd.Complete, old(sent(bd.Complete))) == errBlockDownloadCancelled
 //@   ensures [C16.cancel-marks-cancelled] (old(!bd.isComplete) ==> bd.isCancelled) && bdOK(bd)
+//@   ensures [C16.budget] old(bdBudget(bd)) ==> bdBudget(bd) && sent(bd.Started) <= chancap(bd.Started) && sent(bd.Complete) <= chancap(bd.Complete)
 //@   ensures [C16.flags-monotone] (old(bd.isCancelled) ==> bd.isCancelled) && bd.isComplete == old(bd.isComplete) && bd.isStarted == old(bd.isStarted)
 //@   modifies bd.isCancelled, bd.stateLock, bd.Mutex, chanof(bd.Started), chanof(bd.Complete), allof(BitcoinNode.blockReader), allof(BitcoinNode.blockOnStop), allof(BitcoinNode.blockHandler), allof(BitcoinNode.Mutex), ghost("cancelFoundStarted")
 //@   safety [C16]
@@ -532,12 +540,14 @@ package bitcoin_reader
 // requested block reaches neither the processor nor the block-tx manager and completes with ErrWrongBlock.
 //@ func (*BlockDownloader).HandleBlock
 //@   requires bdOK(bd) && header != nil && bd.txProcessor != nil && bd.blockTxManager != nil && txChannel != nil
+//@   ghostinc "handled" bd
+//@   ensures [C16.budget] old(bdBudget(bd)) && old(ghostv("handled", bd)) == 0 ==> bdBudget(bd) && sent(bd.Started) <= chancap(bd.Started) && sent(bd.Complete) <= chancap(bd.Complete)
 //@   ensures [C16.handler-signals-once] sent(bd.Started) == old(sent(bd.Started)) + 1 && sent(bd.Complete) == old(sent(bd.Complete)) + 1
 //@   ensures [C04.wrong-block-refused] !old(bd.isCancelled) && hashOf(header) != old(bd.hash) ==> result == nil && cause(chanlog(bd.Complete, old(sent(bd.Complete)))) == ErrWrongBlock && blockEvents() == old(blockEvents()) && ghostv("processed", 0) == old(ghostv("processed", 0))
 //@   ensures [C16.cancelled-before-start] old(bd.isCancelled) ==> result == errBlockDownloadCancelled && chanlog(bd.Complete, old(sent(bd.Complete))) == errBlockDownloadCancelled && blockEvents() == old(blockEvents()) && ghostv("processed", 0) == old(ghostv("processed", 0))
 //@   ensures [C16.complete-carries-result] !old(bd.isCancelled) && hashOf(header) == old(bd.hash) ==> chanlog(bd.Complete, old(sent(bd.Complete))) == result
 //@   ensures [C04.gated-by-count-and-root] blockEvents() != old(blockEvents()) ==> recvd(txChannel) - old(recvd(txChannel)) == txCount && ghostv("merkleCount", 0) == txCount && ghostv("merkleRoot", 0) == header.MerkleRoot && hashOf(header) == old(bd.hash)
-//@   modifies bd.stateLock, bd.Mutex, chanof(bd.Started), chanof(bd.Complete), chanof(txChannel), typesof(merkle_proof), allelems(*merkle_proof.MerkleProof), allelems(bitcoin.Hash32), ghost("processed"), ghost("relevant"), ghost("coinbase"), ghost("confirmed"), ghost("appended"), ghost("merkleRoot"), ghost("merkleCount")
+//@   modifies ghost("handled"), bd.stateLock, bd.Mutex, chanof(bd.Started), chanof(bd.Complete), chanof(txChannel), typesof(merkle_proof), allelems(*merkle_proof.MerkleProof), allelems(bitcoin.Hash32), ghost("processed"), ghost("relevant"), ghost("coinbase"), ghost("confirmed"), ghost("appended"), ghost("merkleRoot"), ghost("merkleCount")
 //@   safety [C16]
 
 // Block manager (C16): one terminal signal per request, completion only through an error-free downloader.
